@@ -20,7 +20,7 @@
    The final theorem is tt_no_UB_on_any_history (C08_tlru_utlru_no_UB_on_any_history at uni = true) with the
    literal run replaced by the run of the generated program. *)
 Require Import Capp.Base Capp.Spec Capp.Rr Capp.TtlLru Capp.TtlLruFacts Capp.RrLit Capp.LruLit Capp.TtlLit Capp.TtlLitFacts
-               Capp.GenPrims CappGen.GenUtlru.
+               Capp.GenPrims Capp.Conc Capp.GenConc CappGen.GenUtlru.
 From Coq Require Import Strings.String Lia.
 
 Section UtlruBridge.
@@ -673,7 +673,26 @@ Section UtlruBridge.
       exists l', run_res g_step (g_init ttl cap) h = Ok (l', snd (run tl_step (tl_init true cap ttl) h)) /\
                  tt_rep true l' (fst (run tl_step (tl_init true cap ttl) h)).
   Proof. intros cap ttl h Hc Hm. rewrite g_init_ok. apply generated_utlru_no_UB_on_any_history; auto. Qed.
+
+  (* ---- C06 on the translated program: in every execution of the lock-level machine (Conc.v, Section Lin: invoke,
+     acquire, body = one call of the generated program, release, return) every call returns what the mid-level
+     model returns when it runs the calls in the order of their critical sections — provided the clock readings
+     are monotone in that order, which is the case when a call reads the clock inside its critical section; where
+     the source reads it before taking the lock, this is an assumption about the schedule (the scheduler check of
+     C06 examines such schedules on the real code) ---- *)
+  Theorem generated_utlru_lock_level_executions_return_model_results : forall cap ttl ex st,
+      1 <= cap ->
+      mexec _ _ _ (tstep g_step RUnsupported) (minit _ _ _ (g_init ttl cap)) ex st ->
+      let l := lin _ _ _ (tstep g_step RUnsupported) (g_init ttl cap) (fun _ => None) ex in
+      (fun h => mono_from 0 h) (map (fun c => snd (fst c)) l) ->
+      map snd l = (fun h => snd (run tl_step (tl_init true cap ttl) h)) (map (fun c => snd (fst c)) l).
+  Proof.
+    intros cap ttl ex st Hc Hex.
+    refine (executions_have_the_results_of_the_model g_step RUnsupported (fun h => mono_from 0 h) (fun h => snd (run tl_step (tl_init true cap ttl) h)) (g_init ttl cap) _ ex st Hex).
+    intros h HP. destruct (generated_utlru_constructed_no_UB_on_any_history cap ttl h Hc HP) as (l' & D & _). eauto.
+  Qed.
 End UtlruBridge.
 
 Print Assumptions generated_utlru_no_UB_on_any_history.
 Print Assumptions generated_utlru_constructed_no_UB_on_any_history.
+Print Assumptions generated_utlru_lock_level_executions_return_model_results.
